@@ -43,6 +43,11 @@ type Exec struct {
 	hashes   []*hashEntry
 	inInit   int
 	lastPanic string
+	digested []*Blob
+	lastABI  string
+	recovers []*recovered
+	recCnt   int
+	packs    []*abiPack
 	hexCharNib map[int]*Term
 	hashAx   map[[2]int]*Term
 	hashCnt  int
